@@ -42,6 +42,8 @@ from .expressions import parse_parameters
 from .expressions import parse_positional_and_keyword_arguments
 from .expressions import parse_primitive
 from .expressions import parse_string_or_identifier
+from .expressions import quote_identifier
+from .expressions import quote_string
 from .expressions import parse_string_or_path
 from .filters.array import concat
 from .filters.array import first
@@ -213,6 +215,8 @@ __all__ = (
     "parse_positional_and_keyword_arguments",
     "parse_primitive",
     "parse_string_or_identifier",
+    "quote_identifier",
+    "quote_string",
     "Path",
     "plus",
     "PositionalArgument",
